@@ -1078,11 +1078,10 @@ def run_e2e(ctx, objdir):
         probs = wprobs[w["name"]]
         still = bool(probs) and not any(p[0] == "machinery" for p in probs)
         ctx.case(key=("witness", w["key"]), tags=["e2e:witness:" + w["key"], "e2e:witness-%s" % ("fails" if still else "passes")])
-        if ctx.kf.listed(ctx.prop, w["key"]):
-            ctx.known_finding(w["key"], w["what"], still, {"mode": "e2e", "program": w["src"], "flags": w["flags"]})
-        elif still:
+        # listed -> KNOWN-FINDING; unlisted and still failing -> VIOLATION (ctx.known_finding does both)
+        ctx.known_finding(w["key"], w["what"], still, {"mode": "e2e", "program": w["src"], "flags": w["flags"]})
+        if still:
             cand.append({"key": w["key"], "what": w["what"], "observed": [list(p) for p in probs], "flags": w["flags"]})
-            ctx.log("candidate finding (not listed in known-findings.txt, not counted): %s - %s" % (w["key"], probs[0][1]))
     ctx.extra["candidate_findings"] = cand
 
 
